@@ -19,7 +19,7 @@ func init() {
 		Explanation: "(R1) in the CFG of downStream.receive no path leads from a RunReceiverFilter call to an upstream-send site (a call from which ConnectionPool.NewStream / upstreamRequest.append* is reachable — computed, not listed) without passing a processError call whose `err != nil` edge returns; " +
 			"(R2) every hijack API (SendHijackReply, SendHijackReplyWithBody, SendDirectResponse) unconditionally raises downStream.directResponse and installs the reply headers; (R3) in processError the directResponse branch is reached only after the cleaned check, clears the retry state and leaves only towards the send-filter phase (or Oneway) with ErrExit unless already in it; " +
 			"(R4) phase constants order UpFilter < UpRecvHeader < UpRecvData < UpRecvTrailer, RunSenderFilter sits in the UpFilter case and the reply is written only in the UpRecv* cases; " +
-			"(R5) chain iteration: one filter invocation per iteration, index advanced by one, Stop/termination reset the index and return, ReMatchRoute/ReChooseHost return without resetting it; the status handler maps them to MatchRoute/ChooseHost only in the matching phase and termination to cleanStream. (R6) pool hygiene of DefaultStreamFilterChainImpl: every field written while a request uses the chain is reset in the function that puts it into the sync.Pool (or the methods it calls before) or after Get; cursor fields are reset to 0. (R1, helpers) a same-package helper that runs the receive filters counts as filter-run-plus-check only if every path from its RunReceiverFilter call to its return consults processError. (R7) in TerminateStream every installation of the terminate reply is guarded by downstreamRespHeaders == nil. (R5 rematch-mapping, round 6) in the arm (ReMatchRoute, AfterRoute) resp. (ReChooseHost, AfterChooseHost) of the status handler the again-phase is recorded on every path, directly or by a helper of the package that stores its parameter unconditionally.",
+			"(R5) chain iteration: one filter invocation per iteration, index advanced by one, Stop/termination reset the index and return, ReMatchRoute/ReChooseHost return without resetting it; the status handler maps them to MatchRoute/ChooseHost only in the matching phase and termination to cleanStream. (R6) pool hygiene of DefaultStreamFilterChainImpl: every field written while a request uses the chain is reset in the function that puts it into the sync.Pool (or the methods it calls before) or after Get; cursor fields are reset to 0. (R1, helpers) a same-package helper that runs the receive filters counts as filter-run-plus-check only if every path from its RunReceiverFilter call to its return consults processError. (R7) in TerminateStream every installation of the terminate reply is guarded by downstreamRespHeaders == nil. (R5 rematch-mapping, round 6) in the arm (ReMatchRoute, AfterRoute) resp. (ReChooseHost, AfterChooseHost) of the status handler the again-phase is recorded on every path, directly or by a helper of the package that stores its parameter unconditionally. (R8) every value stored into StreamFilterFactoryImpl.factories is the result of a one-loop builder applied to the whole configuration parameter, or built by appends inside one loop over it.",
 		Run: runC14,
 	})
 }
@@ -72,6 +72,8 @@ func runC14(c *Ctx) {
 	c.Rule("C14.R6", "a recycled filter chain is fully reset: every field written in use is reset on the way into or out of the pool; cursors to 0", 5)
 	defer c14PoolHygiene(c)
 	c.Rule("C14.R7", "an asynchronous terminate never replaces a reply a filter already installed", 1)
+	c.Rule("C14.R8", "the stored filter factory list is an ordered image of the configuration", 1)
+	defer c14FactoriesInConfigOrder(c)
 	defer c14SingleReply(c)
 	c.NotDecided = append(c.NotDecided, "what individual filters decide", "filters that write to an upstream by other means than the proxy's upstream request")
 	c.Assumptions = append(c.Assumptions, "the receive phase machine runs on one worker per request (checked structurally by C03.R4)")
